@@ -23,6 +23,10 @@ RULES13 = ['InverseBinaryRule', 'BlockRowBlockDiagonalRule', 'BlockDiagonalBlock
            'LinearPolarizerHWPRule']
 
 PLAN = {
+    'C13': _p(shards={'x32': 10, 'x64': 6}, quick=150, thorough=4000,
+              exhaustive_scope='the enumerated box of the sweep (see coverage.extra.sweep_box), not the Hypothesis part'),
+    'C11': _p(shards={'x32': 10, 'x64': 6}, quick=150, thorough=4000,
+              exhaustive_scope='the enumerated box of the sweep (see coverage.extra.sweep_box), not the Hypothesis part'),
     'C07': _p(shards={'x32': 12, 'x64': 4}, quick=110, thorough=4000,
               required_classes={'all': ['rule:' + r for r in RULES13] + ['rule:IdentityRule', 'rule:HomothetyRule']}),
     'C10': _p(quick=90, thorough=2500),
